@@ -64,9 +64,13 @@ RULES = [
  ('range address follows set_value in iterative', 'C06', 'differs-after-set_value/input-or-range (evaluate of a range address stale in iterative mode)'),
  ('used area is a single cell can be resolved', 'C05', 'unbounded-range-clipped-to-a-single-cell (1x1 used area: AssertionError)'),
  ('freezes to convergence when iterative', 'C08', 'iterative/frozen-circular-block-not-converged/range (block read through a range frozen after one sweep)'),
- ('array formula which produces a reference', 'C05', 'real-workbook/value-depends-on-order-or-access-path/* (lookup.xlsx Offset!F43:I45 {=OFFSET(...)}: range address gave AddressRange objects, members gave values)'),
+ ('holds the values of the cells referred to', 'C05', 'real-workbook/value-depends-on-order-or-access-path/* (lookup.xlsx Offset!F43:I45 {=OFFSET(...)}: range address gave AddressRange objects, members gave values)'),
  ('left half built by a failed build', 'C01', 'stale-value + stale-value/xlsx-stored-result-of-cell-built-after-write (cell built before a failed build kept its stored result; its precedents were built after a write)'),
  ('rows and columns of an AddressRange list their own cells', 'C11', 'enumerate/rows-taken-first/wrong-cell + enumerate/cols-taken-first/wrong-cell (list(rng.rows) then reading the rows gave the last row every time)'),
+ ('shows the value of the cell referred to also when', 'C05', 'order-dependent-value + sheetless-address-differs + *-of-addresses-differs (=INDIRECT("B1") / =OFFSET(A1,0,1) over a formula cell that was not evaluated before gave blank)'),
+ ('member of that one array formula its place says', 'C05', 'range-over-two-array-formulas ({=A1:A2} next to {=A1:A2*10}, the same text over two targets)'),
+ ('compares with the stored results of the workbook when iterative', 'C12', 'altered-cell-not-reported/* (workbook saved with iterative calculation on: precedents were recalculated before they were compared)'),
+ ('is fitted to its range like any other result', 'C13', 'array-range-element-wrong/* ({=OFFSET(A1,0,0,2,4)} over a larger or smaller target read the neighbouring cells instead of repeating / filling with #N/A)'),
  ('an array and an error value', 'C13', 'array-formula-member-not-pointwise/array-with-error-valued-scalar'),
 ]
 
